@@ -114,6 +114,19 @@ def run(ctx):
                 for pay in (pls if (label in ("prot-obj", "infer") and not (quick and key["kty"] == "RSA")) else pls[:3]):
                     sig_ops.append(("jws.sig", {"jws": {"payload": G.b64u(pay)}, "sig": tmpl, "jwk": k, "rnd": [rng.randbytes(32).hex()],
                                                 "_expect_ok": True, "_alg": used, "_name": name, "_label": label}))
+    # signing keys that carry their own permissions (what `jose jwk gen` produces), for every algorithm
+    for name in names:
+        key = pool[name]
+        for alg in G.algs_for(name, key):
+            for deco, lab in (({"key_ops": ["sign"]}, "key_ops [sign]"), ({"use": "sig"}, "use sig"), ({"key_ops": ["sign", "verify"], "alg": alg}, "key_ops [sign,verify] + alg")):
+                sig_ops.append(("jws.sig", {"jws": {"payload": G.b64u(pls[1])}, "sig": {"protected": {"alg": alg}} if "alg" not in deco else None, "jwk": dict(key, **deco),
+                                            "rnd": [rng.randbytes(32).hex()], "_expect_ok": True, "_alg": alg, "_name": name, "_label": lab, "_vk": key}))
+    # symmetric key sizes strictly between the boundaries of the inference ladder, and at them: the inferred algorithm must be
+    # one the key is long enough for (HS256 from 32, HS384 from 48, HS512 from 64 bytes)
+    for n in (32, 33, 40, 47, 48, 49, 63, 64, 65, 100, 1024):
+        want = "HS512" if n >= 64 else "HS384" if n >= 48 else "HS256"
+        sig_ops.append(("jws.sig", {"jws": {"payload": G.b64u(pls[1])}, "sig": {"protected": {"kid": "i"}}, "jwk": {"kty": "oct", "k": G.b64u(rng.randbytes(n))},
+                                    "rnd": [rng.randbytes(32).hex()], "_expect_ok": True, "_alg": want, "_name": "oct-%d" % n, "_label": "infer, %d bytes" % n}))
     for o, a in sig_ops:
         if a["sig"] is None:
             del a["sig"]
@@ -125,6 +138,8 @@ def run(ctx):
         for side, res in (("jose", r), ("lean", m)):
             if res.get("ok"):
                 tok = res["jws"]
+                if "_vk" in a:      # signed with a key restricted to signing: verified with the plain key and its public half
+                    a = dict(a, jwk=a["_vk"])
                 toks.append((tok, a["jwk"], a["_alg"], side))
                 why = "%s-signed %s %s" % (side, a["_alg"], a["_label"])
                 ver_ops.append(("jws.ver", {"jws": tok, "jwk": a["jwk"], "_expect": True, "_why": why}))
@@ -167,6 +182,14 @@ def run(ctx):
             for k, why in ((a["_k1"], "first key after 2nd addition"), (a["jwk"], "second key")):
                 ver2.append(("jws.ver", {"jws": tok, "jwk": k, "_expect": True, "_why": side + " " + why}))
             ver2.append(("jws.ver", {"jws": tok, "jwk": [a["_k1"], a["jwk"]], "all": True, "_expect": True, "_why": side + " both keys, all"}))
+            # one key, `all`: the flag is about keys, not about signatures - some signature under the key suffices
+            ver2.append(("jws.ver", {"jws": tok, "jwk": a["jwk"], "all": True, "_expect": True, "_why": side + " second key alone, all"}))
+            ver2.append(("jws.ver", {"jws": tok, "jwk": a["_k1"], "all": True, "_expect": True, "_why": side + " first key alone, all"}))
+            sgs = tok.get("signatures") if isinstance(tok.get("signatures"), list) else []
+            if len(sgs) == 2:
+                ver2.append(("jws.ver", {"jws": tok, "sig": sgs[1], "jwk": a["jwk"], "_expect": True, "_why": side + " second signature named, its key"}))
+                ver2.append(("jws.ver", {"jws": tok, "sig": sgs[0], "jwk": a["_k1"], "_expect": True, "_why": side + " first signature named, its key"}))
+                ver2.append(("jws.ver", {"jws": tok, "sig": sgs, "jwk": [a["_k1"], a["jwk"]], "all": True, "_expect": True, "_why": side + " signature array with key array"}))
             ver2.append(("jws.ver", {"jws": tok, "jwk": {"keys": [a["jwk"], a["_k1"]]}, "all": True, "_expect": True, "_why": side + " JWKSet, all"}))
             foreign = {"kty": "oct", "k": G.b64u(rng.randbytes(128))}      # a key nobody signed with
             ver2.append(("jws.ver", {"jws": tok, "jwk": [a["jwk"], foreign], "all": True, "_expect": False, "_why": side + " all with a foreign key"}))
